@@ -22,7 +22,7 @@ from ..core import Check, Ctx, HarnessError, Violation, digest, dumps
 
 ID = "C18"
 RULE = (
-    "history: Hypothesis RuleBasedStateMachine, pool of <= 3 machine objects over 6 pipelines covering every prange "
+    "history: Hypothesis RuleBasedStateMachine, pool of <= 3 machine objects over 8 pipelines covering every prange "
     "kernel (refinement, ambiguity, risk, interval_bounds with regularisation, median_for_intervals) and every step "
     "class incl. multiscale, 2 generated input pairs >= 32x40 with masks, rules new_machine / check / run in any "
     "interleaving; non-trivial = a history with >= 2 runs of one pipeline separated by an operation on another machine. "
@@ -68,6 +68,16 @@ PIPELINES = [
      ["filter", {"filter_method": "median"}],
      ["multiscale", {"multiscale_method": "fixed_zoom_pyramid", "num_scales": 2}],
      ["validation", {"validation_method": "cross_checking_accurate"}]],
+    [["matching_cost", {"matching_cost_method": "sad", "window_size": 3}],
+     ["disparity", {"disparity_method": "wta"}],
+     ["filter", {"filter_method": "median"}],
+     ["refinement", {"refinement_method": "vfit"}],
+     ["validation", {"validation_method": "cross_checking_accurate", "interpolated_disparity": "sgm"}],
+     ["refinement.2", {"refinement_method": "quadratic"}]],
+    [["matching_cost", {"matching_cost_method": "census", "window_size": 3, "subpix": 2}],
+     ["disparity", {"disparity_method": "wta", "invalid_disparity": "NaN"}],
+     ["filter", {"filter_method": "bilateral", "sigma_space": 0.7}],
+     ["refinement", {"refinement_method": "quadratic"}]],
     [["matching_cost", {"matching_cost_method": "zncc", "window_size": 5}],
      ["cost_volume_confidence.x", {"confidence_method": "ambiguity", "normalization": False}],
      ["aggregation", {"aggregation_method": "cbca"}],
@@ -377,8 +387,9 @@ def env_runner(ctx: Ctx, tier, seed_val, shard, nshards, n):
     envs = ENVS_QUICK if tier == "quick" else ENVS_THOROUGH
     for k in range(n):
         cases = [[int(rng.randint(0, len(PIPELINES))), int(rng.randint(0, 1000))] for _ in range(3 if tier == "quick" else 6)]
-        # every pipeline appears across the shards
-        cases[0][0] = (shard * n + k) % len(PIPELINES)
+        # every pipeline appears across the shards (two fixed slots per payload)
+        cases[0][0] = (2 * (shard * n + k)) % len(PIPELINES)
+        cases[1][0] = (2 * (shard * n + k) + 1) % len(PIPELINES)
         payload = {"cases": cases, "envs": [list(e) for e in envs], "repeat": 2 if tier == "quick" else 5}
         try:
             guarded(ctx, env_body, payload)
@@ -390,7 +401,7 @@ def env_runner(ctx: Ctx, tier, seed_val, shard, nshards, n):
 
 CHECKS = [
     Check("history", replay_history, custom=history_runner, budget={"quick": (10, 6), "thorough": (16, 60)}),
-    Check("environments", env_body, custom=env_runner, budget={"quick": (2, 1), "thorough": (4, 4)}, threads=4),
+    Check("environments", env_body, custom=env_runner, budget={"quick": (4, 1), "thorough": (4, 4)}, threads=4),
 ]
 
 if __name__ == "__main__":
